@@ -900,6 +900,8 @@ func (x *runner) runC07() {
 			}
 		}
 	}
+	x.runC07Invalid()
+	x.runPatchC07()
 }
 
 // ---------------------------------------------------------------- C09
@@ -1188,6 +1190,7 @@ func (x *runner) runC11() {
 			}
 		}
 	}
+	x.runPatchC11()
 }
 
 // ---------------------------------------------------------------- C13
@@ -1291,4 +1294,93 @@ func (e *Env) freshDefaults(t Ty) *V {
 		}
 	}
 	return out
+}
+
+// collectBreakable lists the enum and union nodes of a value with the path leading to each.
+func collectBreakable(e *Env, t Ty, v *V, prefix []string, out *[]breakable) {
+	switch {
+	case t.Arr != nil:
+		for _, it := range v.Items {
+			collectBreakable(e, *t.Arr, it, append(append([]string{}, prefix...), "*"), out)
+		}
+	case t.Map != nil:
+		for _, kv := range v.KVs {
+			collectBreakable(e, *t.Map, kv.V, append(append([]string{}, prefix...), kv.K), out)
+		}
+	case t.Ref != "":
+		d := e.Find(t.Ref)
+		switch d.Kind {
+		case "enum", "union":
+			*out = append(*out, breakable{v, append([]string{}, prefix...), d.Kind})
+			if d.Kind == "union" {
+				for _, m := range d.Members {
+					if mv := v.Get(m.Alias); mv != nil {
+						collectBreakable(e, m.Ty, mv, append(append([]string{}, prefix...), m.Alias), out)
+					}
+				}
+			}
+		case "record":
+			for _, f := range e.AllFields(t.Ref) {
+				if fv := v.Get(f.Name); fv != nil {
+					collectBreakable(e, f.Ty, fv, append(append([]string{}, prefix...), f.Name), out)
+				}
+			}
+		}
+	}
+}
+
+type breakable struct {
+	v    *V
+	path []string
+	kind string
+}
+
+// runC07Invalid: values that violate a schema constraint somewhere (an undeclared enum constant,
+// a union without member), encoded with an exclusion spec that covers the broken node, one of its
+// ancestors, or something else. What the encoder does with an invalid value under an excluded key
+// is not the property's business; this part only ties the model to the code (K, no D).
+func (x *runner) runC07Invalid() {
+	r := x.r
+	n := 6
+	if x.cfg.Tier == "thorough" {
+		n = 60
+	}
+	for _, t := range x.recordTypes() {
+		for i := 0; i < n; i++ {
+			v := x.env.GenValue(x.rng, t, 3, GenOpts{OptPct: 80})
+			var bs []breakable
+			collectBreakable(x.env, t, v, nil, &bs)
+			if len(bs) == 0 {
+				continue
+			}
+			b := bs[x.rng.Intn(len(bs))]
+			if len(b.path) == 0 {
+				continue
+			}
+			if b.kind == "enum" {
+				b.v.I = 99
+			} else {
+				b.v.KVs = nil
+			}
+			cut := 1 + x.rng.Intn(len(b.path))
+			dir := append([]string{}, b.path[:cut]...)
+			usable := true
+			for _, seg := range dir {
+				if seg == "" || strings.Contains(seg, "/") {
+					usable = false
+				}
+			}
+			if !usable {
+				continue
+			}
+			for _, excl := range [][]string{{strings.Join(dir, "/")}, {"nosuch"}} {
+				for _, f := range []Fmt{"json", "header"} {
+					op := x.encOp(f, t, v, excl)
+					impl, _ := x.b.Encode(f, t, v, excl)
+					r.Count("invalid-under-exclusion:" + strings.SplitN(impl, " ", 2)[0])
+					x.ask(op, impl, "C07 enc invalid value "+string(f))
+				}
+			}
+		}
+	}
 }
